@@ -45,8 +45,14 @@ def make_cases(table, tier, rng):
     cases = []
 
     def add(row, ci, stratum):
-        cases.append({"name": "h%d" % len(cases), "line": row["line"], "cfg": cfgs[ci], "variant": rng.randint(0, 59),
-                      "offers": rng.choice(["legacy", "versioned"]), "stratum": stratum})
+        # tls_pools: which certificate pools a caller-supplied (static) TLS configuration has -- both, roots only,
+        # client CAs only, none; a line with a certificate is tried against all four
+        pools = [rng.randrange(4)]
+        if cfgs[ci].get("tls") == "static" and row["line"].get("cert") not in ("empty", None) and row["line"]["n"] >= 6:
+            pools = [0, 1, 2, 3]
+        for tp in pools:
+            cases.append({"name": "h%d" % len(cases), "line": row["line"], "cfg": cfgs[ci], "variant": rng.randint(0, 59),
+                          "offers": rng.choice(["legacy", "versioned"]), "stratum": stratum, "tls_pools": tp})
     # lines with fewer than four fields (incl. the blank line) are few: all of them, always
     for r in short:
         for ci in rng.sample(range(len(cfgs)), 2 if tier == "quick" else 6):
